@@ -228,7 +228,15 @@ def malformed_rule(rep, prog):
         if not info or info["nonzero"] is None:
             continue
         cfg = cfg_of(fn)
-        dec = blocks_calling(fn, lambda p, full, c: p == "adsb_deku::Frame::from_bytes")
+        DEC = "adsb_deku::Frame::from_bytes"
+
+        def calls_decode(p, depth=0):
+            g = prog.fns.get(p)
+            if g is None or g["crate"] != fn["crate"] or depth > 3:
+                return False
+            return any(cp == DEC or calls_decode(cp, depth + 1) for _i, cp, _full, _c in calls(g))
+        # the decode call, directly or inside a workspace helper the line is handed to
+        dec = blocks_calling(fn, lambda p, full, c: p == DEC or calls_decode(p))
         if not dec:
             rep.violation("R3", "anchor:%s:decode-call" % name, "%s does not call Frame::from_bytes" % name)
             continue
@@ -244,6 +252,47 @@ def malformed_rule(rep, prog):
                     st.append(pr)
         region = fwd & back
         n = 0
+        # workspace helpers called while the line is being prepared (the conversion extracted into functions): their panic sites
+        # count too - for a helper that itself reaches the decode call, only the part before that call
+        helper_sites = []
+        for bi in sorted(region | set(dec)):
+            t = fn["blocks"][bi]["term"]
+            if not (t and "call" in t and "path" in t["call"]["callee"]):
+                continue
+            hp = t["call"]["callee"].get("resolved") or t["call"]["callee"]["path"]
+            g = prog.fns.get(hp)
+            if g is None or g["crate"] != fn["crate"] or hp == fn["path"]:
+                continue
+            gcfg = cfg_of(g)
+            gdec = blocks_calling(g, lambda p, full, c: p == DEC or calls_decode(p))
+            if gdec:
+                gback = set()
+                stk = list(gdec)
+                while stk:
+                    b_ = stk.pop()
+                    for pr in gcfg.pred[b_]:
+                        if pr not in gback:
+                            gback.add(pr)
+                            stk.append(pr)
+                gregion = gcfg.reachable(0, avoid=gdec) & gback
+            else:
+                gregion = set(range(len(g["blocks"])))
+            for kind, detail, blk, sp in panic_sites(prog, g):
+                if blk in gregion and not is_external_macro(sp):
+                    helper_sites.append((g, kind, detail, blk, sp))
+        for g, kind, detail, blk, sp in helper_sites:
+            n += 1
+            key = ("%s" % name, "%s:%s" % (kind, detail))
+            rep.instance(rid, "%s|%s|%s:%s|%s" % (name, g["path"], kind, detail, site_where(sp)))
+            if key in ALLOW:
+                if guarded_by_all_test(g, cfg_of(g), blk) or guarded_through_helper(prog, g, cfg_of(g), blk):
+                    continue
+                # ... or every call of this helper in the client's main is itself under the all-zero test's "not all zero" outcome
+                callers = blocks_calling(fn, lambda p, full, c, _gp=g["path"]: p == _gp)
+                if callers and all(guarded_by_all_test(fn, cfg, cb) or guarded_through_helper(prog, fn, cfg, cb) for cb in callers):
+                    continue
+            rep.violation("R3", "%s:%s:%s:%s" % (name, g["path"].rsplit("::", 1)[-1], kind, detail),
+                          "%s: a malformed line can panic the client at %s (%s %s in helper %s) before it is skipped" % (name, site_where(sp), kind, detail, g["path"]), site=site_where(sp))
         for kind, detail, blk, sp in panic_sites(prog, fn):
             if blk not in region:
                 continue
